@@ -156,6 +156,8 @@ structure Inv (U c0 : Nat) (w : World) : Prop where
   cost : CostInv U c0 w.g
   rank : ∀ u ∈ w.users, u.rank = rankScan w.g.ranks u.amount
   vault : w.vault.amount = sumExchange w.users
+  /-- an initialised exchange vault has a non-zero window (so `ts / time_window` never divides by 0) -/
+  window : w.vault.initialized = true → w.vault.timeWindow ≠ 0
 
 theorem mem_setUser {us : List User} {i : Nat} {u x : User} (h : x ∈ setUser us i u) :
     x = u ∨ x ∈ us := by
@@ -175,7 +177,7 @@ theorem mint_preserves {U c0 : Nat} {w : World} {now : Int} {uid amount : Nat} {
       unfold setUser; exact set_self _ _ _ hu
     rw [this]; exact ⟨hi, Nat.le_refl _⟩
   · obtain ⟨hT, hS, _, hr, _, _, hA, _, hX, hR, _, _, _⟩ := mintTo_effect hne h
-    refine ⟨⟨?_, mintTo_preserves_costInv hi.cost h, ?_, ?_⟩, by omega⟩
+    refine ⟨⟨?_, mintTo_preserves_costInv hi.cost h, ?_, ?_, hi.window⟩, by omega⟩
     · have := sum_set (·.amount) w.users uid u u' hu
       simp only [sumAmounts, setUser] at *
       have := hi.supply
@@ -201,7 +203,7 @@ theorem burn_preserves {U c0 : Nat} {w : World} {uid amount : Nat} {u u' : User}
       unfold setUser; exact set_self _ _ _ hu
     rw [this]; exact ⟨hi, rfl, rfl, rfl⟩
   · obtain ⟨h1, h2, hS, hA, rfl, _, hX, hR⟩ := burnFrom_effect hne h
-    refine ⟨⟨?_, ?_, ?_, ?_⟩, rfl, rfl, rfl⟩
+    refine ⟨⟨?_, ?_, ?_, ?_, hi.window⟩, rfl, rfl, rfl⟩
     · have := sum_set (·.amount) w.users uid u u' hu
       simp only [sumAmounts, setUser] at *
       have := hi.supply
@@ -270,14 +272,14 @@ theorem stepE_preserves {U c0 : Nat} {w w' : World} {op : Op} (hi : Inv U c0 w)
     | error e => simp [hv] at h
     | ok v =>
       simp only [hv] at h; injection h with h; subst h
-      have : v.amount = w.vault.amount := by
+      have this : v.amount = w.vault.amount ∧ (v.initialized = true → v.timeWindow ≠ 0) := by
         unfold Gt.vaultInit at hv
         split at hv
         · cases hv
         · split at hv
           · cases hv
-          · cases hv; rfl
-      exact ⟨⟨hi.supply, hi.cost, hi.rank, by simpa [this] using hi.vault⟩, Nat.le_refl _⟩
+          · rename_i htw; cases hv; exact ⟨rfl, fun _ => by simp only; omega⟩
+      exact ⟨⟨hi.supply, hi.cost, hi.rank, by simpa [this.1] using hi.vault, this.2⟩, Nat.le_refl _⟩
   | request now uid amount =>
     simp only [stepE] at h
     cases hu : w.users[uid]? with
@@ -306,9 +308,9 @@ theorem stepE_preserves {U c0 : Nat} {w w' : World} {op : Op} (hi : Inv U c0 w)
                 · simp only [hva, hxa, if_true] at hm
                   injection hm with hm; injection hm with e1 e2; injection e2 with e2 e3
                   subst e1; subst e2; subst e3
-                  obtain ⟨⟨b1, b2, b3, b4⟩, bt, br, _⟩ := burn_preserves hi hu hb
+                  obtain ⟨⟨b1, b2, b3, b4, b5⟩, bt, br, _⟩ := burn_preserves hi hu hb
                   have hlt : uid < w.users.length := (List.getElem?_eq_some_iff.1 hu).1
-                  refine ⟨⟨?_, b2, ?_, ?_⟩, by simp [bt]⟩
+                  refine ⟨⟨?_, b2, ?_, ?_, fun _ => hi.window hvi⟩, by simp [bt]⟩
                   · have s1 := sum_set (·.amount) w.users uid u u1 hu
                     have s2 := sum_set (·.amount) w.users uid u { u1 with exchange := u1.exchange + amount } hu
                     simp only [sumAmounts, setUser] at *
@@ -344,13 +346,13 @@ theorem stepE_preserves {U c0 : Nat} {w w' : World} {op : Op} (hi : Inv U c0 w)
           · simp only [hz, if_true] at hc
             injection hc with hc; injection hc with e1 e2; injection e2 with e2 e3
             subst e1; subst e2
-            exact ⟨⟨hi.supply, hi.cost, hi.rank, by simpa [hz] using hi.vault⟩, Nat.le_refl _⟩
+            exact ⟨⟨hi.supply, hi.cost, hi.rank, by simpa [hz] using hi.vault, fun _ => hi.window hvi⟩, Nat.le_refl _⟩
           · simp only [hz, if_false] at hc
             by_cases hg : w.g.gtVault + w.vault.amount < 2 ^ 64
             · simp only [hg, if_true] at hc
               injection hc with hc; injection hc with e1 e2; injection e2 with e2 e3
               subst e1; subst e2
-              exact ⟨⟨hi.supply, hi.cost, hi.rank, by simpa using hi.vault⟩, Nat.le_refl _⟩
+              exact ⟨⟨hi.supply, hi.cost, hi.rank, by simpa using hi.vault, fun _ => hi.window hvi⟩, Nat.le_refl _⟩
             · simp [hg] at hc
       · simp [hvi] at hc
 
@@ -410,7 +412,7 @@ threshold is positive. -/
 theorem fresh_world_inv {U : Nat} {g : Gt} (n : Nat) (h0 : g.supply = 0) (ht : g.totalMinted = 0)
     (hg : g.growSteps = 0) (hr : rankScan g.ranks 0 = 0) :
     Inv U g.mintingCost { g := g, users := List.replicate n {}, vault := {} } := by
-  refine ⟨?_, ⟨by simp [hg, ht], by simp [hg, iterCost]⟩, ?_, ?_⟩
+  refine ⟨?_, ⟨by simp [hg, ht], by simp [hg, iterCost]⟩, ?_, ?_, by simp⟩
   · simp [sumAmounts, h0]
   · intro u hu; rw [List.eq_of_mem_replicate hu]; simpa using hr.symm
   · simp [sumExchange]
@@ -799,5 +801,344 @@ theorem cost_function_of_total_minted_init {U c0 : Nat} (w : World) (ops : List 
 example : iterCost (10 ^ 20) (2 * 10 ^ 20) ((run (10 ^ 20) exWorld exOps).g.totalMinted / 10) 100 =
     some (run (10 ^ 20) exWorld exOps).g.mintingCost :=
   cost_function_of_total_minted_init exWorld exOps exWorld_inv_witness
+
+/-! ### round 4: the division by a zero window is unreachable over every history; the cost theorem
+under the real `is_initialized` guard; the uninitialised GT state is frozen -/
+
+theorem nextMintingCost_not_divZero (U : Nat) (g : Gt) (n : Nat) :
+    nextMintingCost U g n ≠ .error .divZero := by
+  intro h
+  unfold nextMintingCost at h
+  by_cases h0 : g.growStepAmount = 0
+  · simp [h0] at h
+  · simp only [h0, if_false] at h
+    repeat' split at h
+    all_goals first | cases h | simp at h
+
+theorem updateCum_not_divZero (U : Nat) (now : Int) (g : Gt) :
+    updateCum U now g ≠ .error .divZero := by
+  intro h
+  unfold updateCum at h
+  repeat' split at h
+  all_goals first | cases h | simp at h
+
+theorem mintTo_not_divZero (U : Nat) (now : Int) (g : Gt) (u : User) (amount : Nat) :
+    mintTo U now g u amount ≠ .error .divZero := by
+  intro h
+  unfold mintTo at h
+  repeat' split at h
+  all_goals first
+    | (cases h; first
+         | exact nextMintingCost_not_divZero _ _ _ (by assumption)
+         | exact updateCum_not_divZero _ _ _ (by assumption))
+    | cases h
+
+theorem burnFrom_not_divZero (g : Gt) (u : User) (amount : Nat) :
+    burnFrom g u amount ≠ .error .divZero := by
+  intro h
+  unfold burnFrom at h
+  repeat' split at h
+  all_goals first | cases h | simp_all
+
+theorem getMintAmount_not_divZero (g : Gt) (value : Nat) :
+    getMintAmount g value ≠ .error .divZero := by
+  intro h
+  unfold getMintAmount at h
+  repeat' split at h
+  all_goals first | cases h | simp_all
+
+/-- the window check divides by zero only for a zero window. -/
+theorem divZero_only_zero_window (v : Vault) (now : Int) :
+    (validateDepositable v now = .error .divZero → v.timeWindow = 0) ∧
+    (validateConfirmable v now = .error .divZero → v.timeWindow = 0) := by
+  constructor <;> intro h
+  · unfold validateDepositable at h
+    repeat' split at h
+    all_goals first | assumption | cases h
+  · unfold validateConfirmable at h
+    repeat' split at h
+    all_goals first | assumption | cases h
+
+/-- no instruction of a world satisfying the invariant ends in the division-by-zero panic: the
+request and confirm paths check `is_initialized` first, and an initialised vault has a non-zero
+window. -/
+theorem stepE_never_divZero {U c0 : Nat} {w : World} (hi : Inv U c0 w) (op : Op) :
+    stepE U w op ≠ .error .divZero := by
+  intro h
+  cases op with
+  | mint now uid amount =>
+    simp only [stepE] at h
+    cases hu : w.users[uid]? with
+    | none => simp [hu] at h
+    | some u =>
+      simp only [hu] at h
+      cases hm : mintTo U now w.g u amount with
+      | error e => simp only [hm] at h; injection h with h; subst h; exact mintTo_not_divZero _ _ _ _ _ hm
+      | ok p => obtain ⟨g', u'⟩ := p; simp [hm] at h
+  | burn uid amount =>
+    simp only [stepE] at h
+    cases hu : w.users[uid]? with
+    | none => simp [hu] at h
+    | some u =>
+      simp only [hu] at h
+      cases hm : burnFrom w.g u amount with
+      | error e => simp only [hm] at h; injection h with h; subst h; exact burnFrom_not_divZero _ _ _ hm
+      | ok p => obtain ⟨g', u'⟩ := p; simp [hm] at h
+  | mintValue now uid value =>
+    simp only [stepE] at h
+    cases hu : w.users[uid]? with
+    | none => simp [hu] at h
+    | some u =>
+      simp only [hu] at h
+      cases hg : getMintAmount w.g value with
+      | error e => simp only [hg] at h; injection h with h; subst h; exact getMintAmount_not_divZero _ _ hg
+      | ok q =>
+        obtain ⟨m, mv, c⟩ := q
+        simp only [hg] at h
+        cases hm : mintTo U now w.g u m with
+        | error e => simp only [hm] at h; injection h with h; subst h; exact mintTo_not_divZero _ _ _ _ _ hm
+        | ok p => obtain ⟨g', u'⟩ := p; simp [hm] at h
+  | vaultInit now tw =>
+    simp only [stepE] at h
+    cases hv : Gt.vaultInit w.vault now tw with
+    | ok v => simp [hv] at h
+    | error e =>
+      simp only [hv] at h; injection h with h; subst h
+      unfold Gt.vaultInit at hv
+      by_cases h1 : w.vault.initialized = true
+      · simp [h1] at hv
+      · by_cases h2 : tw = 0 <;> simp [h1, h2] at hv
+  | request now uid amount =>
+    simp only [stepE] at h
+    cases hu : w.users[uid]? with
+    | none => simp [hu] at h
+    | some u =>
+      simp only [hu] at h
+      cases hm : requestExchange w.g u w.vault now amount with
+      | ok p => obtain ⟨g', u', v'⟩ := p; simp [hm] at h
+      | error e =>
+        simp only [hm] at h; injection h with h; subst h
+        unfold requestExchange at hm
+        by_cases hvi : w.vault.initialized = true
+        · simp only [hvi, Bool.not_true, Bool.false_eq_true, if_false] at hm
+          cases hb : burnFrom w.g u amount with
+          | error e => simp only [hb] at hm; injection hm with hm; subst hm; exact burnFrom_not_divZero _ _ _ hb
+          | ok q =>
+            obtain ⟨g1, u1⟩ := q
+            simp only [hb] at hm
+            cases hd : validateDepositable w.vault now with
+            | error e =>
+              simp only [hd] at hm; injection hm with hm; subst hm
+              exact hi.window hvi ((divZero_only_zero_window w.vault now).1 hd)
+            | ok _ =>
+              simp only [hd] at hm
+              repeat' split at hm
+              all_goals first | cases hm | simp_all
+        · simp [hvi] at hm
+  | confirm now =>
+    simp only [stepE] at h
+    cases hc : confirmVault w.g w.vault now with
+    | ok p => obtain ⟨g', v', amt⟩ := p; simp [hc] at h
+    | error e =>
+      simp only [hc] at h; injection h with h; subst h
+      unfold confirmVault at hc
+      by_cases hvi : w.vault.initialized = true
+      · simp only [hvi, Bool.not_true, Bool.false_eq_true, if_false] at hc
+        cases hd : validateConfirmable w.vault now with
+        | error e =>
+          simp only [hd] at hc; injection hc with hc; subst hc
+          exact hi.window hvi ((divZero_only_zero_window w.vault now).2 hd)
+        | ok _ =>
+          simp only [hd] at hc
+          repeat' split at hc
+          all_goals first | cases hc | simp_all
+      · simp [hvi] at hc
+
+/-- over EVERY history: after any sequence of instructions no further instruction can hit the
+division by a zero window, and the window predicates themselves never do on an initialised vault. -/
+theorem divZero_unreachable {U c0 : Nat} (w : World) (ops : List Op) (hi : Inv U c0 w) (op : Op) (now : Int) :
+    stepE U (run U w ops) op ≠ .error .divZero ∧
+    ((run U w ops).vault.initialized = true →
+      validateDepositable (run U w ops).vault now ≠ .error .divZero ∧
+      validateConfirmable (run U w ops).vault now ≠ .error .divZero) := by
+  have hi' := (run_preserves ops w hi).1
+  refine ⟨stepE_never_divZero hi' op, fun hv => ⟨fun h => ?_, fun h => ?_⟩⟩
+  · exact hi'.window hv ((divZero_only_zero_window _ now).1 h)
+  · exact hi'.window hv ((divZero_only_zero_window _ now).2 h)
+
+/-- WITNESS: on an UNINITIALISED vault (`time_window = 0`) the public `validate_depositable` does
+divide by zero (Rust panic, replayed by `gt depositable` on a fresh world) — which is why the
+instruction paths check `is_initialized` first. -/
+theorem depositable_uninitialised_panics (now : Int) :
+    validateDepositable {} now = .error .divZero := by rfl
+
+/-- the minting cost after any history, under the real guard (`is_initialized`, i.e. a non-zero
+grow step — no `x / 0`): the initial cost grown `total_minted / grow_step` times; the guard itself
+is preserved. -/
+theorem cost_function_of_total_minted_initialised {U c0 : Nat} (w : World) (ops : List Op)
+    (hi : Inv U c0 w) (hinit : w.g.growStepAmount ≠ 0) :
+    (run U w ops).g.growStepAmount = w.g.growStepAmount ∧ (run U w ops).g.growStepAmount ≠ 0 ∧
+    iterCost U w.g.costGrowFactor ((run U w ops).g.totalMinted / w.g.growStepAmount) c0 =
+      some (run U w ops).g.mintingCost := by
+  have e := run_keeps_config (U := U) ops w
+  exact ⟨e.2.1, by rw [e.2.1]; exact hinit, cost_function_of_total_minted_init w ops hi⟩
+
+/-- the uninitialised branch, explicitly: with `grow_step_amount = 0` every non-zero mint is
+rejected (`InvalidGTConfig`, or `TokenAmountOverflow` if the total does not fit) … -/
+theorem mint_uninitialised_rejected {U : Nat} {now : Int} {g : Gt} {u : User} {amount : Nat}
+    (h0 : g.growStepAmount = 0) (hne : amount ≠ 0) :
+    mintTo U now g u amount = .error .config ∨ mintTo U now g u amount = .error .overflow := by
+  unfold mintTo checkedAdd toU
+  simp only [hne, if_false]
+  by_cases h1 : g.totalMinted + amount < 2 ^ 64
+  · left; simp [h1, nextMintingCost, h0]
+  · right; simp [h1]
+
+/-- … so an uninitialised GT state is frozen: after any history nothing was minted and the
+cost bookkeeping is untouched (the `x / 0 = 0` reading of `cost_function_of_total_minted` is
+never exercised). -/
+theorem uninitialised_gt_frozen {U : Nat} (ops : List Op) : ∀ (w : World), w.g.growStepAmount = 0 →
+    (run U w ops).g.growStepAmount = 0 ∧ (run U w ops).g.totalMinted = w.g.totalMinted ∧
+    (run U w ops).g.growSteps = w.g.growSteps ∧ (run U w ops).g.mintingCost = w.g.mintingCost := by
+  have hmint : ∀ {now : Int} {g g' : Gt} {u u' : User} {amount : Nat}, g.growStepAmount = 0 →
+      mintTo U now g u amount = .ok (g', u') → g' = g := by
+    intro now g g' u u' amount h0 hm
+    by_cases hne : amount = 0
+    · simp [mintTo, hne] at hm; exact hm.1.symm
+    · rcases mint_uninitialised_rejected (U := U) (now := now) (u := u) h0 hne with h | h <;> rw [h] at hm <;> cases hm
+  have hstep : ∀ (w w' : World) (op : Op), w.g.growStepAmount = 0 → stepE U w op = .ok w' →
+      w'.g.growStepAmount = 0 ∧ w'.g.totalMinted = w.g.totalMinted ∧ w'.g.growSteps = w.g.growSteps ∧
+        w'.g.mintingCost = w.g.mintingCost := by
+    intro w w' op h0 h
+    have hb : ∀ {g g' : Gt} {u u' : User} {amount : Nat}, burnFrom g u amount = .ok (g', u') →
+        g'.growStepAmount = g.growStepAmount ∧ g'.totalMinted = g.totalMinted ∧ g'.growSteps = g.growSteps ∧
+          g'.mintingCost = g.mintingCost := by
+      intro g g' u u' amount hbf
+      by_cases hne : amount = 0
+      · simp [burnFrom, hne] at hbf; obtain ⟨rfl, _⟩ := hbf; exact ⟨rfl, rfl, rfl, rfl⟩
+      · obtain ⟨_, _, _, _, rfl, _⟩ := burnFrom_effect hne hbf; exact ⟨rfl, rfl, rfl, rfl⟩
+    cases op with
+    | mint now uid amount =>
+      simp only [stepE] at h
+      cases hu : w.users[uid]? with
+      | none => simp [hu] at h
+      | some u =>
+        simp only [hu] at h
+        cases hm : mintTo U now w.g u amount with
+        | error e => simp [hm] at h
+        | ok p =>
+          obtain ⟨g', u'⟩ := p
+          simp only [hm] at h; injection h with h; subst h
+          have := hmint h0 hm; simp [this, h0]
+    | burn uid amount =>
+      simp only [stepE] at h
+      cases hu : w.users[uid]? with
+      | none => simp [hu] at h
+      | some u =>
+        simp only [hu] at h
+        cases hm : burnFrom w.g u amount with
+        | error e => simp [hm] at h
+        | ok p =>
+          obtain ⟨g', u'⟩ := p
+          simp only [hm] at h; injection h with h; subst h
+          obtain ⟨a, b, c, d⟩ := hb hm; exact ⟨by simp [a, h0], b, c, d⟩
+    | mintValue now uid value =>
+      simp only [stepE] at h
+      cases hu : w.users[uid]? with
+      | none => simp [hu] at h
+      | some u =>
+        simp only [hu] at h
+        cases hg : getMintAmount w.g value with
+        | error e => simp [hg] at h
+        | ok q =>
+          obtain ⟨m, mv, c⟩ := q
+          simp only [hg] at h
+          cases hm : mintTo U now w.g u m with
+          | error e => simp [hm] at h
+          | ok p =>
+            obtain ⟨g', u'⟩ := p
+            simp only [hm] at h; injection h with h; subst h
+            have := hmint h0 hm; simp [this, h0]
+    | vaultInit now tw =>
+      simp only [stepE] at h
+      cases hv : Gt.vaultInit w.vault now tw with
+      | error e => simp [hv] at h
+      | ok v => simp only [hv] at h; injection h with h; subst h; exact ⟨h0, rfl, rfl, rfl⟩
+    | request now uid amount =>
+      simp only [stepE] at h
+      cases hu : w.users[uid]? with
+      | none => simp [hu] at h
+      | some u =>
+        simp only [hu] at h
+        cases hm : requestExchange w.g u w.vault now amount with
+        | error e => simp [hm] at h
+        | ok p =>
+          obtain ⟨g', u', v'⟩ := p
+          simp only [hm] at h; injection h with h; subst h
+          unfold requestExchange at hm
+          by_cases hvi : w.vault.initialized = true
+          · simp only [hvi, Bool.not_true, Bool.false_eq_true, if_false] at hm
+            cases hbf : burnFrom w.g u amount with
+            | error e => simp [hbf] at hm
+            | ok q =>
+              obtain ⟨g1, u1⟩ := q
+              simp only [hbf] at hm
+              cases hd : validateDepositable w.vault now with
+              | error e => simp [hd] at hm
+              | ok _ =>
+                simp only [hd, checkedAdd, toU] at hm
+                by_cases hva : w.vault.amount + amount < 2 ^ 64
+                · by_cases hxa : u1.exchange + amount < 2 ^ 64
+                  · simp only [hva, hxa, if_true] at hm
+                    injection hm with hm; injection hm with e1 e2
+                    subst e1
+                    obtain ⟨a, b, c, d⟩ := hb hbf; exact ⟨by simp [a, h0], b, c, d⟩
+                  · simp [hva, hxa] at hm
+                · simp [hva] at hm
+          · simp [hvi] at hm
+    | confirm now =>
+      simp only [stepE] at h
+      cases hc : confirmVault w.g w.vault now with
+      | error e => simp [hc] at h
+      | ok p =>
+        obtain ⟨g', v', amt⟩ := p
+        simp only [hc] at h; injection h with h; subst h
+        unfold confirmVault at hc
+        by_cases hvi : w.vault.initialized = true
+        · simp only [hvi, Bool.not_true, Bool.false_eq_true, if_false] at hc
+          cases hd : validateConfirmable w.vault now with
+          | error e => simp [hd] at hc
+          | ok _ =>
+            simp only [hd, checkedAdd, toU] at hc
+            by_cases hz : w.vault.amount = 0
+            · simp only [hz, if_true] at hc
+              injection hc with hc; injection hc with e1 e2; subst e1
+              exact ⟨h0, rfl, rfl, rfl⟩
+            · simp only [hz, if_false] at hc
+              by_cases hg : w.g.gtVault + w.vault.amount < 2 ^ 64
+              · simp only [hg, if_true] at hc
+                injection hc with hc; injection hc with e1 e2; subst e1
+                exact ⟨h0, rfl, rfl, rfl⟩
+              · simp [hg] at hc
+        · simp [hvi] at hc
+  intro w
+  induction ops generalizing w with
+  | nil => intro h0; exact ⟨h0, rfl, rfl, rfl⟩
+  | cons op ops ih =>
+    intro h0
+    simp only [run, List.foldl_cons]
+    have hs : (step U w op).g.growStepAmount = 0 ∧ (step U w op).g.totalMinted = w.g.totalMinted ∧
+        (step U w op).g.growSteps = w.g.growSteps ∧ (step U w op).g.mintingCost = w.g.mintingCost := by
+      unfold step
+      cases h : stepE U w op with
+      | ok w' => exact hstep w w' op h0 h
+      | error e => exact ⟨h0, rfl, rfl, rfl⟩
+    obtain ⟨a, b, c, d⟩ := ih (step U w op) hs.1
+    simp only [run] at a b c d
+    exact ⟨a, b.trans hs.2.1, c.trans hs.2.2.1, d.trans hs.2.2.2⟩
+
+example : mintTo (10 ^ 20) 5 {} {} 7 = .error .config := by rfl
+example : getMintAmount {} 100 = .error .config := by rfl
+example : (run (10 ^ 20) { g := {}, users := [({} : User)] } [.mint 1 0 7, .mintValue 2 0 50, .burn 0 0]).g = {} := by decide
 
 end Gmx.C30
